@@ -585,7 +585,12 @@ impl Check for C20Check {
             let (files, lz4, argv) = build_files(&scn, &streams, lay);
             let mut paths = Vec::new();
             for (k, f) in files.iter().enumerate() {
-                let name = format!("l{li}_f{k}.mid{}", if lz4[k] { ".lz4" } else { "" });
+                // (every 5th layout: file names that are not UTF-8 - U+E000 stands for the byte 0xFF)
+                let odd = (lay.argv_seed >> 23) % 5 == 0;
+                if odd && k == 0 {
+                    stats.probe("file_names_not_utf8");
+                }
+                let name = format!("l{li}{}_f{k}.mid{}", if odd { "\u{E000}" } else { "" }, if lz4[k] { ".lz4" } else { "" });
                 paths.push(write_file(&scratch.dir, &name, f, lz4[k], None));
                 if lz4[k] {
                     stats.probe("lz4_file");
@@ -602,15 +607,16 @@ impl Check for C20Check {
             let args: Vec<std::path::PathBuf> = argv
                 .iter()
                 .map(|&k| {
-                    let name = paths[k].file_name().unwrap().to_string_lossy().to_string();
+                    let name = std::path::PathBuf::from(paths[k].file_name().unwrap());
                     match form {
                         0 | 1 => paths[k].clone(),
-                        2 => name.into(),
-                        3 => format!("./{name}").into(),
-                        4 => format!("sub.dir.mid/../{name}").into(),
+                        2 => name,
+                        3 => std::path::Path::new(".").join(name),
+                        4 => std::path::Path::new("sub.dir.mid/..").join(name),
                         _ => {
-                            let _ = std::os::unix::fs::symlink(&paths[k], scratch.dir.join(format!("ln_{name}")));
-                            format!("ln_{name}").into()
+                            let _ = std::fs::create_dir_all(scratch.dir.join("lnk.d"));
+                            let _ = std::os::unix::fs::symlink(&paths[k], scratch.dir.join("lnk.d").join(&name));
+                            std::path::Path::new("lnk.d").join(name)
                         }
                     }
                 })
